@@ -770,6 +770,14 @@ def gen_search(rng):
       inp.update(opts=dict(sampler="latin_hypercube"), n=rng.randint(0, 20), fixed=[])
     else:
       inp.update(n=rng.randint(1, 15), force=rng.random() < 0.5, fixed=fixed)
+      # the sampler option is set on constrained domains as well (it must not take precedence over the constraints)
+      if rng.random() < 0.5:
+        o = dict(sampler=rng.choice(["latin_hypercube", "uniform", "halton", "sobol"]))
+        if rng.random() < 0.5:
+          o["skip"] = rng.randint(0, 100)
+        if rng.random() < 0.5:
+          o["seed"] = rng.randrange(10**6)
+        inp["opts"] = o
   elif kind == "lhs":
     inp.update(cons=[], n=rng.choice([1, 2, 5, 12, 13, 20, 31]), lhs_opts=rng.choice([None, dict(skip=rng.randint(0, 20), seed=rng.choice([None, 3, rng.randrange(10 ** 6)]))]))
   elif kind == "grid":
@@ -955,6 +963,8 @@ def _oracle(kind, inp, dm, smp, geo, bounds, cons):
     return _check_points(kind, inp, w.generate_quasi_random_points_in_domain(inp["n"]), inp["n"], bounds, [])
   if kind == "sampler_cons":
     d.force_hitandrun_sampling = bool(inp["force"])
+    if inp.get("opts"):
+      d.set_quasi_random_sampler_opts(dict(inp["opts"]))
     return _check_points(kind, inp, w.generate_quasi_random_points_in_domain(inp["n"]), inp["n"], bounds, cons, fixed)
   if kind == "near":
     out = w.generate_random_points_near_point(inp["n"], numpy.array(inp["point"], dtype=float), inp["std"], inp["on"])
